@@ -28,13 +28,17 @@ Reads(part) == CASE part = "result_models" -> {"types", "field_types"}
 Parts == {"result_models", "enums", "signatures", "operation_strings", "input_required_and_defaults"}
 Sources == {"single_file", "directory", "introspection", "introspection_descriptions"}
 
-VARIABLES src, partition, stage, client
-vars == <<src, partition, stage, client>>
-Init == /\ src \in Sources /\ partition \in [Defs -> Files] /\ stage = "configured" /\ client = <<>>
+\* how each file of a directory source ENDS: with a blank line, with its last token (no trailing newline; the last token may
+\* be a name: "scalar Stamp"), or with a comment that has no trailing newline.  The loader joins the files; the seam between
+\* two files must not fuse tokens nor swallow the next file's first line into a comment.
+Endings == {"blank_line", "last_token", "comment"}
+VARIABLES src, partition, ending, stage, client
+vars == <<src, partition, ending, stage, client>>
+Init == /\ src \in Sources /\ partition \in [Defs -> Files] /\ ending \in Endings /\ stage = "configured" /\ client = <<>>
 \* a part of the client is faithful iff everything it reads is carried by the source
 Generate == /\ stage = "configured" /\ stage' = "generated"
             /\ client' = [p \in Parts |-> Reads(p) \subseteq Carried(src)]
-            /\ UNCHANGED <<src, partition>>
+            /\ UNCHANGED <<src, partition, ending>>
 Next == Generate
 Spec == Init /\ [][Next]_vars
 \* every part of the client is the same as from the single SDL file
